@@ -19,8 +19,19 @@ operators (`parse_prefix_expression`), every binary operator whose infix rule is
 * The AST keeps no parentheses, exactly as the real one.
 * Statement level (`parseStmt`, `parseBlock`, `parseProgram`): `let`, `return`, expression statements, blocks,
   `while`, `loop`, `break`/`continue` with optional label, `fn` statements; `if`/`else if`/`else` and `fn`
-  literals as expressions (prefix functions `parse_if_expr`, `parse_function_expression`).  Labels, filters,
-  `match`, and every literal kind not listed above stay `skip`.
+  literals as expressions (prefix functions `parse_if_expr`, `parse_function_expression`).
+* `match` expressions (`parse_match_expr`): scrutinee, arms `pattern => expression | block` with an optional `,`,
+  the default-arm rules (a second `_` arm, a `_` arm that is not the last one, `_` next to other patterns are
+  errors; a missing `_` arm is added with the body `null`).  PATTERNS are modelled on their flat form only:
+  alternatives separated by `|`, each a decimal / boolean / `_` atom or a range `a..b`, `a..=b` of two decimal or
+  two identifier atoms, or a string / char / byte literal or a range of two of the same kind (the real parser reads a pattern with `parse_expression` in the mode `in_match_pattern`,
+  where `|` has the precedence `MatchOr`; on the flat form that is exactly "split at every `|`"); any other
+  token inside a pattern (string / char / byte literals, parentheses, operators, …) is `skip`.
+* loop labels `name: loop {…}` / `name: while c {…}`, filter statements `@ e {…}`, `@ end {…}`, `@ {…}`, `@ e`,
+  array literals, `map {k: v, …}` literals, `null` and `_` as atoms, string / char / byte literals (as atoms, as
+  match patterns and as range operands; the token carries its literal), the builtin identifiers `stdin` / `stdout` /
+  `stderr`, `$n` / `$name`, octal / hexadecimal / binary integer literals, float literals (only whether `str::parse::<f64>` accepts the
+  text: the tree keeps no value).  Dot expressions stay `skip`.
 -/
 namespace P2sh.Parser
 open P2sh.Gen.ParseRules
@@ -56,7 +67,7 @@ def continues (c : Nat) (tt : String) : Bool :=
   && tt != "Semicolon" && tt != "Eof"
 
 inductive PrefixKind where
-  | none | ident | decimal | boolean | unary | grouped | ifE | fnE | other
+  | none | ident | decimal | boolean | unary | grouped | ifE | fnE | null | score | matchE | arr | map | lit | bid | dollar | other
 deriving DecidableEq, Repr
 
 def prefixKind (tt : String) : PrefixKind :=
@@ -69,6 +80,15 @@ def prefixKind (tt : String) : PrefixKind :=
   else if f == "parse_grouped" then .grouped
   else if f == "parse_if_expr" then .ifE
   else if f == "parse_function_expression" then .fnE
+  else if f == "parse_null" then .null
+  else if f == "parse_underscore" then .score
+  else if f == "parse_match_expr" then .matchE
+  else if f == "parse_array_literal" then .arr
+  else if f == "parse_hash_literal" then .map
+  else if f == "parse_string" || f == "parse_char" || f == "parse_byte" then .lit
+  else if f == "parse_octal" || f == "parse_hexadecimal" || f == "parse_binary" || f == "parse_float" then .lit
+  else if f == "parse_builtin_id" then .bid
+  else if f == "parse_dollar_expression" then .dollar
   else .other
 
 inductive InfixKind where
@@ -94,6 +114,7 @@ inductive Tok where
   | bool (b : Bool)      -- `True` / `False`
   | ident (s : String)   -- `Identifier`
   | t (ttype : String)   -- any other token, by the name of its `TokenType`
+  | lit (ttype : String) (text : String)   -- `Str` / `Char` / `Byte` with the literal
 deriving DecidableEq, Repr
 
 def Tok.ttype : Tok → String
@@ -103,6 +124,23 @@ def Tok.ttype : Tok → String
   | .bool false => "False"
   | .ident _ => "Identifier"
   | .t s => s
+  | .lit s _ => s
+
+/-- the operands of a range pattern (`is_valid_range`: two integers or two identifiers, among the modelled atoms) -/
+inductive PAtom where
+  | int (n : Nat)
+  | ident (s : String)
+  | lit (tt text : String)                  -- `Str` / `Char` / `Byte`
+deriving DecidableEq, Repr
+
+/-- `MatchPattern` (the string / char / byte kinds are outside the model) -/
+inductive PPat where
+  | pint (n : Nat)
+  | pbool (b : Bool)
+  | pdef
+  | plit (tt text : String)                 -- `Str` / `Char` / `Byte`
+  | prange (op : String) (a b : PAtom)      -- `op` = `RangeEx` / `RangeInc`
+deriving DecidableEq, Repr
 
 mutual
 inductive PExpr where
@@ -117,6 +155,21 @@ inductive PExpr where
   | call (f : PExpr) (args : List PExpr)
   | ifE (c : PExpr) (t : List PStmt) (e : PElse)
   | fnE (params : List String) (body : List PStmt)
+  | null
+  | score                                   -- `_` as an expression
+  | matchE (s : PExpr) (arms : List PArm)
+  | arr (es : List PExpr)
+  | map (kvs : List PKv)
+  | lit (tt text : String)                  -- a `Str` / `Char` / `Byte` literal: token type and literal
+  | bid (tt : String)                       -- `stdin` / `stdout` / `stderr`: token type
+inductive PArm where
+  | mk (pats : List PPat) (body : List PStmt)
+inductive PKv where
+  | mk (k v : PExpr)
+inductive PFilt where
+  | none                                    -- `@ { … }`
+  | fend                                    -- `@ end { … }`
+  | expr (e : PExpr)
 inductive PElse where
   | none
   | els (b : List PStmt)
@@ -132,6 +185,10 @@ inductive PStmt where
   | breakS (label : Option String)
   | continueS (label : Option String)
   | fnS (name : String) (params : List String) (body : List PStmt)
+  | loopL (label : String) (b : List PStmt)                 -- `label: loop { … }`
+  | whileL (label : String) (c : PExpr) (b : List PStmt)    -- `label: while c { … }`
+  | filterS (p : PFilt) (b : List PStmt)                    -- filter with an action
+  | filterP (e : PExpr)                                     -- `@ e`: a pattern without an action
 end
 
 inductive Res (α : Type) where
@@ -153,11 +210,18 @@ def peekIs (tt : String) : List Tok → Bool
   | [] => tt == "Eof"
   | t :: _ => t.ttype == tt
 
-/-- `is_valid_range` on the kinds of the sub-grammar -/
+/-- `is_valid_range` on the kinds of the operator sub-grammar -/
 def validRange : PExpr → PExpr → Bool
   | .int _, .int _ => true
   | .ident _, .ident _ => true
   | _, _ => false
+
+/-- `is_valid_range`: also two string, two char or two byte literals -/
+def validRangeX (a b : PExpr) : Bool :=
+  validRange a b ||
+  (match a, b with
+   | .lit t1 _, .lit t2 _ => t1 == t2 && t1 != "Float"
+   | _, _ => false)
 
 /-! ## the parser -/
 
@@ -176,6 +240,81 @@ def decimalAtom : Tok → Res PExpr
 def boolAtom : Tok → Res PExpr
   | .bool b => .ok (.bool b)
   | _ => .skip
+
+/-- the radix of `parse_octal` / `parse_hexadecimal` / `parse_binary` -/
+def radixOf (tt : String) : Option Nat :=
+  if tt == "Hexadecimal" then some 16 else if tt == "Octal" then some 8 else if tt == "Binary" then some 2 else none
+
+/-- `char::to_digit(36)` -/
+def digitVal (c : Char) : Option Nat :=
+  if c.isDigit then some (c.toNat - 48)
+  else if c.isLower then some (c.toNat - 87)
+  else if c.isUpper then some (c.toNat - 55)
+  else none
+
+/-- `i64::from_str_radix` on a text without sign: `none` = `Err` (empty, a digit outside the radix, above `i64::MAX`) -/
+def radixValue (r : Nat) (cs : List Char) : Option Nat :=
+  if cs.isEmpty then none
+  else
+    match cs.foldl (fun acc c => acc.bind fun a => (digitVal c).bind fun d => if d < r then some (a * r + d) else none) (some 0) with
+    | some n => if n < 2 ^ 63 then some n else none
+    | none => none
+
+/-- digits, then the rest -/
+def spanDigits (cs : List Char) : List Char × List Char := cs.span Char.isDigit
+
+/-- does `str::parse::<f64>` accept the text?  On texts that start with a digit: `digits [. digits] [(e|E) [+|-] digits+]`
+with nothing behind (Rust also accepts a sign, a leading `.`, `inf`, `nan`: such texts are not asked here) -/
+def floatOK (cs : List Char) : Bool :=
+  let (_, r1) := spanDigits cs
+  let r2 := (match r1 with
+    | '.' :: r => (spanDigits r).2
+    | _ => r1)
+  match r2 with
+  | [] => true
+  | e :: r =>
+    if e == 'e' || e == 'E' then
+      let r3 := (match r with
+        | '+' :: r' => r'
+        | '-' :: r' => r'
+        | _ => r)
+      let (ds, r4) := spanDigits r3
+      !ds.isEmpty && r4.isEmpty
+    else false
+
+/-- `parse_string` / `parse_char` / `parse_byte` on the literal of the token: a string always parses, a char
+literal must be exactly one character (`str::parse::<char>`), a byte literal must not be empty.
+`parse_octal` / `parse_hexadecimal` / `parse_binary`: `from_str_radix(&literal[2..], r)`; a literal that does not
+have the scanner's shape (two ASCII characters, then letters, digits, `_`) is `skip`. -/
+def litAtom : Tok → Res PExpr
+  | .lit tt s =>
+    match radixOf tt with
+    | some r =>
+      if 2 ≤ s.length && (s.toList.take 2).all (fun c => decide (c.toNat < 128)) &&
+          (s.toList.drop 2).all (fun c => c.isAlphanum || c == '_') then
+        (match radixValue r (s.toList.drop 2) with
+         | some n => .ok (.int n)
+         | none => .err)
+      else .skip
+    | none =>
+      if tt == "Float" then
+        -- `parse_float`: the value is not modelled (the tree keeps the text), only whether `str::parse::<f64>` accepts it
+        (match s.toList with
+         | c :: _ => if c.isDigit then (if floatOK s.toList then .ok (.lit tt s) else .err) else .skip
+         | [] => .err)
+      else if tt == "Char" then (if s.length == 1 then .ok (.lit tt s) else .err)
+      else if tt == "Byte" then (if s.isEmpty then .err else .ok (.lit tt s))
+      else .ok (.lit tt s)
+  | _ => .skip
+
+/-- the operand of `$`: a decimal (`parse_decimal(true)`) or an identifier; anything else is
+"invalid expression after '$'"; `ts` starts with the token after `$` -/
+def dollarOperand : List Tok → Res (PExpr × List Tok)
+  | [] => .err
+  | a :: rest =>
+    if a.ttype == "Decimal" then (decimalAtom a).bind fun e => .ok (e, rest)
+    else if a.ttype == "Identifier" then (identAtom a).bind fun e => .ok (e, rest)
+    else .err
 
 def lowestRank : Nat := rankOf "Lowest"
 
@@ -211,6 +350,130 @@ def parseParams (ts : List Tok) : Res (List String × List Tok) :=
 def labelOf (rest : List Tok) : Option String × List Tok :=
   if peekIs "Identifier" rest then (some (identOf rest), skipSemi rest.tail) else (none, skipSemi rest)
 
+
+/-! ## match patterns (flat form) -/
+
+/-- type of the peek token; `[]` = the endless `Eof` -/
+def peekT : List Tok → String
+  | [] => "Eof"
+  | t :: _ => t.ttype
+
+inductive PatAtom where
+  | int (n : Nat) | bool (b : Bool) | ident (s : String) | score | null | lit (tt text : String)
+deriving DecidableEq, Repr
+
+/-- the prefix function of the first token of an alternative, on the atoms of the flat form -/
+def patAtomOf : Tok → Res PatAtom
+  | .int n => .ok (.int n)
+  | .badInt => .err
+  | .bool b => .ok (.bool b)
+  | .ident s => .ok (.ident s)
+  | .t tt =>
+    if prefixKind tt == .score then .ok .score
+    else if prefixKind tt == .null then .ok .null
+    else if prefixKind tt == .none then .err
+    else .skip
+  | .lit tt s =>
+    if prefixKind tt == .lit then
+      (litAtom (.lit tt s)).bind fun e =>
+        (match e with
+         | .int n => .ok (.int n)
+         | .lit a b => if a == "Float" then .ok .null else .ok (.lit a b)      -- a float is not a pattern (as `null`)
+         | _ => .skip)
+    else if prefixKind tt == .none then .err
+    else .skip
+
+/-- a token after which the pattern expression ends: it does not continue an expression even at the
+`Assignment` level (`|`, which has the level `MatchOr` inside a pattern, is looked at separately) -/
+def patStops (tt : String) : Bool := !(continues assignRank tt)
+
+/-- `convert_to_pattern_list` on one atom: an identifier alone is "invalid pattern in match arm" (`none`) -/
+def patOfAtom : PatAtom → Option PPat
+  | .int n => some (.pint n)
+  | .bool b => some (.pbool b)
+  | .score => some .pdef
+  | .ident _ => none
+  | .null => none
+  | .lit tt s => some (.plit tt s)
+
+/-- `is_valid_range` -/
+def rangeOfAtoms (op : String) : PatAtom → PatAtom → Option PPat
+  | .int m, .int n => some (.prange op (.int m) (.int n))
+  | .ident a, .ident b => some (.prange op (.ident a) (.ident b))
+  | .lit t1 a, .lit t2 b => if t1 == t2 then some (.prange op (.lit t1 a) (.lit t2 b)) else none
+  | _, _ => none
+
+/-- one alternative of a pattern: `parse_expression(MatchOr)` (`Assignment` for the first) in the mode
+`in_match_pattern`, on the flat form; `ts` starts with the current token, the result with the peek token.
+`none` = an expression that is not a pattern. -/
+def parseAlt (ts : List Tok) : Res (Option PPat × List Tok) :=
+  match ts with
+  | [] => .err                                         -- `Eof` has no prefix function
+  | a :: rest =>
+    (patAtomOf a).bind fun x =>
+      if peekIs "Assign" rest then
+        (match x with
+         | .int _ => .err                               -- `parse_decimal` / `parse_boolean`: "Invalid assignment target"
+         | .bool _ => .err
+         | .lit _ _ => .err
+         | _ => .skip)
+      else if infixKind (peekT rest) == .range && continues assignRank (peekT rest) then
+        (match rest.tail with
+         | [] => .err
+         | b :: rest3 =>
+           (patAtomOf b).bind fun y =>
+             if peekIs "Assign" rest3 then .err         -- the right operand is parsed above `Assignment`
+             else if peekIs "BitwiseOr" rest3 || patStops (peekT rest3) then
+               (match rangeOfAtoms (peekT rest) x y with
+                | some p => .ok (some p, rest3)
+                | none => .err)                         -- "invalid use of range operator"
+             else .skip)
+      else if peekIs "BitwiseOr" rest || patStops (peekT rest) then .ok (patOfAtom x, rest)
+      else .skip
+
+/-- the alternatives `a1 | a2 | …`; `ts` starts with the current token -/
+def parsePats : Nat → List (Option PPat) → List Tok → Res (List (Option PPat) × List Tok)
+  | 0, _, _ => .fuel
+  | fuel+1, acc, ts =>
+    (parseAlt ts).bind fun (p, rest) =>
+      if peekIs "BitwiseOr" rest then parsePats fuel (acc ++ [p]) rest.tail
+      else .ok (acc ++ [p], rest)
+
+def allSome {α} : List (Option α) → Option (List α)
+  | [] => some []
+  | none :: _ => none
+  | some a :: l => (allSome l).map (a :: ·)
+
+/-- the checks of `parse_match_pattern`: every alternative is a pattern; at most one `_`, and `_` stands alone -/
+def finishPats (ps : List (Option PPat)) : Res (List PPat) :=
+  match allSome ps with
+  | none => .err
+  | some qs =>
+    let d := (qs.filter (· == .pdef)).length
+    if d > 1 then .err
+    else if qs.length > 1 && d == 1 then .err
+    else .ok qs
+
+/-- `MatchArm::is_default` -/
+def isDefaultPats : List PPat → Bool
+  | [.pdef] => true
+  | _ => false
+
+
+def PArm.isDefault : PArm → Bool
+  | .mk ps _ => isDefaultPats ps
+
+/-- the arm the parser adds when there is no `_` arm: `_ => { null }` -/
+def defaultArm : PArm := .mk [.pdef] [.exprS .null]
+
+/-- the end of `parse_match_expr`: a `_` arm must be the last one ("unreachable pattern"); without one, `defaultArm` is added -/
+def finishArms (arms : List PArm) : Res (List PArm) :=
+  if arms.any PArm.isDefault then
+    (match arms.getLast? with
+     | some a => if a.isDefault then .ok arms else .err
+     | none => .err)
+  else .ok (arms ++ [defaultArm])
+
 mutual
 /-- `parse_expression(precedence = c)`; `ts` starts with the *current* token -/
 def parseExpr : Nat → Nat → List Tok → Res (PExpr × List Tok)
@@ -242,6 +505,18 @@ def parseExpr : Nat → Nat → List Tok → Res (PExpr × List Tok)
               (parseBlock fuel [] r.tail).bind fun (b, r2) => loop fuel c (.fnE ps b) r2
             else .err
         else .err
+      | .null => loop fuel c .null rest
+      | .score => loop fuel c .score rest
+      | .matchE => (parseMatch fuel rest).bind fun (e, rest') => loop fuel c e rest'
+      | .arr => (parseElems fuel rest).bind fun (es, rest') => loop fuel c (.arr es) rest'
+      | .map =>
+        -- `parse_hash_literal` takes the token after `map` for the `{` without looking at it
+        (parseMapPairs fuel [] rest.tail).bind fun (kvs, rest') => loop fuel c (.map kvs) rest'
+      | .lit => (litAtom t).bind fun a => if peekIs "Assign" rest then .err else loop fuel c a rest
+      | .bid => loop fuel c (.bid t.ttype) rest
+      | .dollar =>
+        -- `parse_dollar_expression`: `$` and a decimal (which may be assigned to) or an identifier
+        (dollarOperand rest).bind fun (e, rest2) => loop fuel c (.un t.ttype e) rest2
 /-- the `while self.peek_valid_expression(precedence)` loop; `ts` starts with the *peek* token -/
 def loop : Nat → Nat → PExpr → List Tok → Res (PExpr × List Tok)
   | 0, _, _, _ => .fuel
@@ -259,7 +534,7 @@ def loop : Nat → Nat → PExpr → List Tok → Res (PExpr × List Tok)
           (parseExpr fuel (precRank t.ttype) rest).bind fun (r, rest') => loop fuel c (.assign left r) rest'
         | .range =>
           (parseExpr fuel (precRank t.ttype) rest).bind fun (r, rest') =>
-            if validRange left r then loop fuel c (.range t.ttype left r) rest' else .err
+            if validRangeX left r then loop fuel c (.range t.ttype left r) rest' else .err
         | .index =>
           (parseExpr fuel assignRank rest).bind fun (i, rest') =>
             if peekIs "RightBracket" rest' then loop fuel c (.index left i) rest'.tail else .err
@@ -296,6 +571,61 @@ def parseIf : Nat → List Tok → Res (PExpr × List Tok)
             else .skip
           else .ok (.ifE c t .none, r2)
       else .err
+/-- `parse_match_expr`; `ts` starts with the token after `match` -/
+def parseMatch : Nat → List Tok → Res (PExpr × List Tok)
+  | 0, _ => .fuel
+  | fuel+1, ts =>
+    (parseExpr fuel assignRank ts).bind fun (s, r1) =>
+      if peekIs "LeftBrace" r1 then
+        (parseArms fuel [] r1.tail).bind fun (arms, r2) => .ok (.matchE s arms, r2)
+      else .err
+/-- the `while !peek RightBrace && !peek Eof` loop over the arms and what follows it; `ts` starts with the peek token -/
+def parseArms : Nat → List PArm → List Tok → Res (List PArm × List Tok)
+  | 0, _, _ => .fuel
+  | fuel+1, acc, ts =>
+    if peekIs "RightBrace" ts then (finishArms acc).bind fun arms => .ok (arms, ts.tail)
+    else if peekIs "Eof" ts then .err
+    else
+      (parsePats fuel [] ts).bind fun (ps, r1) =>
+        (finishPats ps).bind fun pats =>
+          if peekIs "MatchArm" r1 then
+            (parseArmBody fuel r1.tail).bind fun (b, r2) =>
+              if isDefaultPats pats && acc.any PArm.isDefault then .err      -- "multiple default arms in match expression"
+              else parseArms fuel (acc ++ [.mk pats b]) (if peekIs "Comma" r2 then r2.tail else r2)
+          else .err
+/-- the body of a match arm: a block, or one expression (which becomes a block of one expression statement);
+`ts` starts with the token after `=>` -/
+def parseArmBody : Nat → List Tok → Res (List PStmt × List Tok)
+  | 0, _ => .fuel
+  | fuel+1, ts =>
+    if peekIs "LeftBrace" ts then parseBlock fuel [] ts.tail
+    else (parseExpr fuel assignRank ts).bind fun (e, r) => .ok ([PStmt.exprS e], r)
+/-- `parse_expression_list(RightBracket)` of `parse_array_literal`; `ts` starts with the token after `[` -/
+def parseElems : Nat → List Tok → Res (List PExpr × List Tok)
+  | 0, _ => .fuel
+  | fuel+1, ts =>
+    if peekIs "RightBracket" ts then .ok ([], ts.tail)
+    else (parseExpr fuel assignRank ts).bind fun (e, rest') => parseElemsTail fuel [e] rest'
+def parseElemsTail : Nat → List PExpr → List Tok → Res (List PExpr × List Tok)
+  | 0, _, _ => .fuel
+  | fuel+1, acc, ts =>
+    if peekIs "Comma" ts then
+      (parseExpr fuel assignRank ts.tail).bind fun (e, rest') => parseElemsTail fuel (acc ++ [e]) rest'
+    else if peekIs "RightBracket" ts then .ok (acc, ts.tail)
+    else .err
+/-- the pairs of `parse_hash_literal`; `ts` starts with the peek token (the current one is `{` or `,`) -/
+def parseMapPairs : Nat → List PKv → List Tok → Res (List PKv × List Tok)
+  | 0, _, _ => .fuel
+  | fuel+1, acc, ts =>
+    if peekIs "RightBrace" ts then .ok (acc, ts.tail)
+    else
+      (parseExpr fuel assignRank ts).bind fun (k, r1) =>
+        if peekIs "Colon" r1 then
+          (parseExpr fuel assignRank r1.tail).bind fun (v, r2) =>
+            if peekIs "RightBrace" r2 then .ok (acc ++ [.mk k v], r2.tail)
+            else if peekIs "Comma" r2 then parseMapPairs fuel (acc ++ [.mk k v]) r2.tail
+            else .err
+        else .err
 /-- `parse_block_statement`; `ts` starts with the token after `{`.  A block ended by `Eof` is accepted
 without an error, as in the code. -/
 def parseBlock : Nat → List PStmt → List Tok → Res (List PStmt × List Tok)
@@ -337,8 +667,27 @@ def parseStmt : Nat → List Tok → Res (PStmt × List Tok)
             else .err
         else .err
       else if t.ttype == "LeftBrace" then (parseBlock fuel [] rest).bind fun (b, r) => .ok (.block b, r)
-      else if t.ttype == "Filter" then .skip
-      else if t.ttype == "Identifier" && peekIs "Colon" rest then .skip
+      else if t.ttype == "Filter" then
+        -- `parse_filter_statement` (no `;` is skipped after it)
+        if peekIs "LeftBrace" rest then (parseBlock fuel [] rest.tail).bind fun (b, r) => .ok (.filterS .none b, r)
+        else if peekIs "End" rest then
+          if peekIs "LeftBrace" rest.tail then (parseBlock fuel [] rest.tail.tail).bind fun (b, r) => .ok (.filterS .fend b, r)
+          else .err
+        else
+          (parseExpr fuel assignRank rest).bind fun (e, r) =>
+            if peekIs "LeftBrace" r then (parseBlock fuel [] r.tail).bind fun (b, r2) => .ok (.filterS (.expr e) b, r2)
+            else .ok (.filterP e, r)
+      else if t.ttype == "Identifier" && peekIs "Colon" rest then
+        -- a label (`parse_expr_statement`): only `loop` / `while` may follow
+        if peekIs "Loop" rest.tail then
+          if peekIs "LeftBrace" rest.tail.tail then
+            (parseBlock fuel [] rest.tail.tail.tail).bind fun (b, r) => .ok (.loopL (identOf ts) b, r)
+          else .err
+        else if peekIs "While" rest.tail then
+          (parseExpr fuel lowestRank rest.tail.tail).bind fun (c, r) =>
+            if peekIs "LeftBrace" r then (parseBlock fuel [] r.tail).bind fun (b, r2) => .ok (.whileL (identOf ts) c b, r2)
+            else .err
+        else .err
       else (parseExpr fuel assignRank ts).bind fun (e, r) => .ok (.exprS e, skipSemi r)
 end
 
@@ -366,6 +715,8 @@ def ofToken (t : P2sh.Scanner.Token) : Tok :=
   else if t.ttype == "True" then .bool true
   else if t.ttype == "False" then .bool false
   else if t.ttype == "Identifier" then .ident t.literal
+  else if t.ttype == "Str" || t.ttype == "Char" || t.ttype == "Byte" then .lit t.ttype t.literal
+  else if t.ttype == "Octal" || t.ttype == "Hexadecimal" || t.ttype == "Binary" || t.ttype == "Float" then .lit t.ttype t.literal
   else .t t.ttype
 
 /-- token types on which `parse_statement` does not go to `parse_expr_statement` -/
@@ -408,40 +759,84 @@ def canonLabel : Option String → String
   | none => "-"
   | some l => hexOfString l
 
+def PAtom.canon : PAtom → String
+  | .int n => s!"(int {n})"
+  | .ident s => s!"(id {hexOfString s})"
+  | .lit tt s => s!"(lit {tt} {hexOfString s})"
+
+def PPat.canon : PPat → String
+  | .pint n => s!"(pint {n})"
+  | .pbool b => if b then "(pbool t)" else "(pbool f)"
+  | .pdef => "(pdef)"
+  | .plit tt s => s!"(plit {tt} {hexOfString s})"
+  | .prange op a b => s!"(prange {op} {a.canon} {b.canon})"
+
+def canonPats : List PPat → String
+  | [] => ""
+  | p :: ps => " " ++ p.canon ++ canonPats ps
+
+/-! `full = false`: the text of the harness ops `pexpr` / `pprog` (`pcanon` / `pstmt` in harness/src/ops/lang.rs), which
+print every node outside the first sub-grammar as `(other)` / `(sother)`.  `full = true`: every node of the model
+(the text the driver compares with the tree of the harness op `parse`, op `pfull`). -/
 mutual
-def PExpr.canon : PExpr → String
+def PExpr.canon (full : Bool) : PExpr → String
   | .int n => s!"(int {n})"
   | .bool b => if b then "(bool t)" else "(bool f)"
   | .ident s => s!"(id {hexOfString s})"
-  | .un op e => s!"(un {op} {e.canon})"
-  | .bin op a b => s!"(bin {op} {a.canon} {b.canon})"
-  | .assign a b => s!"(assign {a.canon} {b.canon})"
-  | .range op a b => s!"(range {op} {a.canon} {b.canon})"
-  | .index a i => s!"(index {a.canon} {i.canon})"
-  | .call f args => s!"(call {f.canon}{canonList args})"
-  | .ifE c t e => s!"(if {c.canon} (blk{canonStmts t}) {e.canon})"
-  | .fnE ps b => s!"(fn (params{canonNames ps}) (blk{canonStmts b}))"
-def PElse.canon : PElse → String
-  | .none => "(noelse)"
-  | .els b => s!"(else (blk{canonStmts b}))"
-  | .elif e => s!"(elif {e.canon})"
-def canonList : List PExpr → String
+  | .un op e => s!"(un {op} {e.canon full})"
+  | .bin op a b => s!"(bin {op} {a.canon full} {b.canon full})"
+  | .assign a b => s!"(assign {a.canon full} {b.canon full})"
+  | .range op a b => s!"(range {op} {a.canon full} {b.canon full})"
+  | .index a i => s!"(index {a.canon full} {i.canon full})"
+  | .call f args => s!"(call {f.canon full}{canonList full args})"
+  | .ifE c t e => s!"(if {c.canon full} (blk{canonStmts full t}) {e.canon full})"
+  | .fnE ps b => s!"(fn (params{canonNames ps}) (blk{canonStmts full b}))"
+  | .null => if full then "(null)" else "(other)"
+  | .score => if full then "(score)" else "(other)"
+  | .matchE s arms => if full then s!"(match {s.canon full}{canonArms full arms})" else "(other)"
+  | .arr es => if full then s!"(arr{canonList full es})" else "(other)"
+  | .map kvs => if full then s!"(map{canonKvs full kvs})" else "(other)"
+  | .lit tt s => if full then (if tt == "Float" then "(lit Float)" else s!"(lit {tt} {hexOfString s})") else "(other)"
+  | .bid tt => if full then s!"(bid {tt})" else "(other)"
+def PArm.canon (full : Bool) : PArm → String
+  | .mk ps b => s!"(arm (pats{canonPats ps}) (blk{canonStmts full b}))"
+def canonArms (full : Bool) : List PArm → String
   | [] => ""
-  | e :: es => " " ++ e.canon ++ canonList es
-def PStmt.canon : PStmt → String
-  | .letS n e => s!"(let {hexOfString n} {e.canon})"
+  | a :: as => " " ++ a.canon full ++ canonArms full as
+def PKv.canon (full : Bool) : PKv → String
+  | .mk k v => s!"(kv {k.canon full} {v.canon full})"
+def canonKvs (full : Bool) : List PKv → String
+  | [] => ""
+  | a :: as => " " ++ a.canon full ++ canonKvs full as
+def PFilt.canon (full : Bool) : PFilt → String
+  | .none => "(pnone)"
+  | .fend => "(pend)"
+  | .expr e => s!"(pexpr {e.canon full})"
+def PElse.canon (full : Bool) : PElse → String
+  | .none => "(noelse)"
+  | .els b => s!"(else (blk{canonStmts full b}))"
+  | .elif e => s!"(elif {e.canon full})"
+def canonList (full : Bool) : List PExpr → String
+  | [] => ""
+  | e :: es => " " ++ e.canon full ++ canonList full es
+def PStmt.canon (full : Bool) : PStmt → String
+  | .letS n e => s!"(let {hexOfString n} {e.canon full})"
   | .ret0 => "(ret)"
-  | .ret e => s!"(ret {e.canon})"
-  | .exprS e => s!"(expr {e.canon})"
-  | .block b => s!"(blk{canonStmts b})"
-  | .whileS c b => s!"(while {c.canon} (blk{canonStmts b}))"
-  | .loopS b => s!"(loop (blk{canonStmts b}))"
+  | .ret e => s!"(ret {e.canon full})"
+  | .exprS e => s!"(expr {e.canon full})"
+  | .block b => s!"(blk{canonStmts full b})"
+  | .whileS c b => s!"(while {c.canon full} (blk{canonStmts full b}))"
+  | .loopS b => s!"(loop (blk{canonStmts full b}))"
   | .breakS l => s!"(break {canonLabel l})"
   | .continueS l => s!"(continue {canonLabel l})"
-  | .fnS n ps b => s!"(fnstmt {hexOfString n} (params{canonNames ps}) (blk{canonStmts b}))"
-def canonStmts : List PStmt → String
+  | .fnS n ps b => s!"(fnstmt {hexOfString n} (params{canonNames ps}) (blk{canonStmts full b}))"
+  | .loopL l b => if full then s!"(loopl {hexOfString l} (blk{canonStmts full b}))" else "(sother)"
+  | .whileL l c b => if full then s!"(whilel {hexOfString l} {c.canon full} (blk{canonStmts full b}))" else "(sother)"
+  | .filterS p b => if full then s!"(filter {p.canon full} (blk{canonStmts full b}))" else "(sother)"
+  | .filterP e => if full then s!"(filter (pexpr {e.canon full}) -)" else "(sother)"
+def canonStmts (full : Bool) : List PStmt → String
   | [] => ""
-  | s :: ss => " " ++ s.canon ++ canonStmts ss
+  | s :: ss => " " ++ s.canon full ++ canonStmts full ss
 end
 
 end P2sh.Parser
